@@ -1014,16 +1014,11 @@ class Context:
         def regexp_constructor_fn(*args):
             pattern = to_string(args[0]) if args else ""
             flags = to_string(args[1]) if len(args) > 1 else ""
-            # Create timeout callback if we have a current VM with time_limit
+            # The evaluation that uses the regex installs its own deadline
+            # callback (VM._adopt_regex); until then poll the running one's
             poll_callback = None
-            if ctx._current_vm and ctx._current_vm.time_limit is not None:
-                vm = ctx._current_vm
-
-                def check_timeout() -> bool:
-                    """Return True if time limit exceeded (to abort regex)."""
-                    return time.monotonic() - vm.start_time > vm.time_limit
-
-                poll_callback = check_timeout
+            if ctx._current_vm is not None:
+                poll_callback = ctx._current_vm._deadline_callback()
             return JSRegExp(pattern, flags, poll_callback)
 
         return JSCallableObject(regexp_constructor_fn)
